@@ -328,6 +328,12 @@ class GraphInitializers(collections.UserDict[str, "_core.Value"]):
         self._maybe_unset_graph(value)
         super().__delitem__(key)
 
+    def __ior__(self, other):
+        """Update the initializers in place with tracking (``initializers |= other``)."""
+        # UserDict.__ior__ writes to self.data directly, which bypasses __setitem__
+        self.update(other)
+        return self
+
     def add(self, value: _core.Value) -> None:
         """Add an initializer to the graph."""
         self[value.name] = value  # type: ignore[index]
